@@ -27,6 +27,10 @@ VERIFICATION_MSGS = [
     'cannot show invariant holds',
     'index out of bounds',
     'unwrap',
+    'unable to prove post-condition of closure',
+    'fails to satisfy `callee.requires(args)`',
+    'unable to prove',
+    'not satisfied',
 ]
 RESOURCE_MSGS = ['resource limit', 'rlimit', 'timed out', 'timeout']
 
@@ -103,7 +107,7 @@ def run_unit(name, workdir, vacuity=False, mutate=None, tag=''):
         if vacuity:
             for fs in u.specs.values():
                 if fs.kind == 'fn':
-                    fs.clauses.append((0, 'ensures', 'VACUITY_TWIN', 'false,'))
+                    fs.vacuity_twin = True
         text = u.assemble(mutate=mutate)
     except specmod.LostAnchor as e:
         res.status, res.infra = 'infra', 'lost anchor: %s' % e
